@@ -247,6 +247,7 @@ func checkC01(r *core.Run) {
 	// the execution data handed to tapscript signature checks: the leaf hash is the BIP341 one and stays intact
 	c02LeafHash(r, p, "R-C01-rules")
 	c01HashTypeMasks(r, p)
+	c01CastToBool(r, p)
 	c01Total(r, p, ev)
 }
 
@@ -604,4 +605,119 @@ func c01HashTypeMasks(r *core.Run, p *core.Program) {
 		got := strings.Join(ms, " ")
 		r.Check(got == x.want, rule, "hash-type-masks/"+x.fn, p.Pos(fn.Pos()), "the hash-type byte is decoded with the masks "+x.want, "the hash-type byte is decoded with the masks ["+got+"], consensus uses ["+x.want+"]")
 	}
+}
+
+// c01CastToBool: the truth value of a stack item (what IF/NOTIF/VERIFY and the final verdict read): false
+// for the empty item, true as soon as a byte before the last is non-zero, otherwise decided by the last byte
+// alone with its sign bit masked off, so that all-zero items and negative zero of any length are false.
+// The last-byte expression is evaluated for all 256 byte values with every load of d[len(d)-1] fixed; an
+// expression that needs any other byte is not the consensus cast.
+func c01CastToBool(r *core.Run, p *core.Program) {
+	const rule = "R-C01-rules"
+	const key = "fn/cast-to-bool"
+	fn := p.Func("lib/script.bts2bool")
+	if fn == nil || len(fn.Params) != 1 {
+		r.Fail(rule, key, "-", "bts2bool not found")
+		return
+	}
+	var lastLoads, otherLoads []*ssa.UnOp
+	an.Instrs(fn, func(i ssa.Instruction) {
+		ld, ok := i.(*ssa.UnOp)
+		if !ok || ld.Op != token.MUL {
+			return
+		}
+		ia, ok := ld.X.(*ssa.IndexAddr)
+		if !ok || ia.X != ssa.Value(fn.Params[0]) {
+			return
+		}
+		if an.Expr(ia.Index) == "(builtin.len(param#0) - 1)" {
+			lastLoads = append(lastLoads, ld)
+		} else {
+			otherLoads = append(otherLoads, ld)
+		}
+	})
+	var bad []string
+	// (1) empty -> false
+	okEmpty := false
+	for _, b := range fn.Blocks {
+		if iff, ok := b.Instrs[len(b.Instrs)-1].(*ssa.If); ok && an.Expr(iff.Cond) == "(builtin.len(param#0) == 0)" && b == fn.Blocks[0] {
+			if ret, ok := b.Succs[0].Instrs[len(b.Succs[0].Instrs)-1].(*ssa.Return); ok && an.Expr(ret.Results[0]) == "false" {
+				okEmpty = true
+			}
+		}
+	}
+	if !okEmpty {
+		bad = append(bad, "the empty item is not tested first and answered with false")
+	}
+	// (2) loop over the bytes before the last: non-zero -> true
+	okLoop := false
+	for _, ld := range otherLoads {
+		ia := ld.X.(*ssa.IndexAddr)
+		phi, isPhi := ia.Index.(*ssa.Phi)
+		if !isPhi {
+			continue
+		}
+		start, step := false, false
+		for _, e := range phi.Edges {
+			switch an.Expr(e) {
+			case "0":
+				start = true
+			case "(" + an.Expr(phi) + " + 1)":
+				step = true
+			}
+		}
+		bounded := an.HasCond(an.DomConds(ld.Block()), "("+an.Expr(phi)+" < (builtin.len(param#0) - 1))", true)
+		b := ld.Block()
+		iff, isIf := b.Instrs[len(b.Instrs)-1].(*ssa.If)
+		if !start || !step || !bounded || !isIf {
+			continue
+		}
+		c := an.Expr(iff.Cond)
+		e := an.Expr(ld)
+		tgt := -1
+		if c == "("+e+" != 0)" || c == "("+e+" > 0)" {
+			tgt = 0
+		} else if c == "("+e+" == 0)" {
+			tgt = 1
+		}
+		if tgt >= 0 {
+			if ret, ok := b.Succs[tgt].Instrs[len(b.Succs[tgt].Instrs)-1].(*ssa.Return); ok && len(b.Succs[tgt].Instrs) == 1 && an.Expr(ret.Results[0]) == "true" {
+				okLoop = true
+			}
+		}
+	}
+	if !okLoop {
+		bad = append(bad, "no loop over the bytes 0..len-2 that answers true for a non-zero byte")
+	}
+	// (3) the remaining verdict is a function of the last byte alone: (b & 0x7f) != 0
+	nfinal := 0
+	for _, b := range fn.Blocks {
+		ret, ok := b.Instrs[len(b.Instrs)-1].(*ssa.Return)
+		if !ok || len(ret.Results) != 1 {
+			continue
+		}
+		if _, isC := ret.Results[0].(*ssa.Const); isC {
+			continue
+		}
+		nfinal++
+		for v := int64(0); v < 256; v++ {
+			env := an.PEnv{}
+			for _, ld := range lastLoads {
+				env[ld] = constant.MakeInt64(v)
+			}
+			got, ok := an.PEval(ret.Results[0], env)
+			if !ok || got.Kind() != constant.Bool {
+				bad = append(bad, "the verdict returned at "+p.Pos(ret.Pos())+" ("+clip(an.Expr(ret.Results[0]), 90)+") is not decided by the last byte alone")
+				break
+			}
+			if constant.BoolVal(got) != (v&0x7f != 0) {
+				bad = append(bad, fmt.Sprintf("for a last byte 0x%02x (all earlier bytes zero) the verdict returned at %s is %v", v, p.Pos(ret.Pos()), constant.BoolVal(got)))
+				break
+			}
+		}
+	}
+	if nfinal != 1 {
+		bad = append(bad, fmt.Sprintf("%d computed verdicts (expected one: the last byte's)", nfinal))
+	}
+	r.Check(len(bad) == 0, rule, key, p.Pos(fn.Pos()), "empty: false; a non-zero byte before the last: true; otherwise (last byte & 0x7f) != 0, evaluated for all 256 values", strings.Join(bad, "; "))
 }
